@@ -33,7 +33,7 @@ def leg_a(ctx):
 
 def run(ctx, pool):
     tw, stats = pc.record_processes(ctx, ctx.n(600, 20000), ctx.n(48, 1500), {"with_std": False})
-    jobs = [(ctx.seed * 31 + j, ctx.n(12, 200), True) for j in range(16)] + [(ctx.seed * 37 + 1000 + j, ctx.n(1, 12), False) for j in range(16)]
+    jobs = [(ctx.seed * 31 + j, ctx.n(12, 200), True) for j in range(16)] + [(ctx.seed * 37 + 1000 + j, ctx.n(3, 16), False) for j in range(16)]
     for twins in core.parallel("harness.rec_process", "twin0_job", jobs):
         tw.traces.extend(twins)
     res = core.validate_traces(None, ctx, tw, pool, "Trace_Process.tla", "Trace_Process_C03.cfg")
